@@ -2,8 +2,8 @@
    Proved here: how the operands are restricted (to the region where both are defined), the formulas the results are
    computed by (unfoldings of the model, which mirrors the code), lag = shift of g by -lag with the clip='pre' / 'post'
    window rule, and symmetry in f and g. The means and variances that occur are the length-weighted ones of C08.
-   NOT proved (correspondence + oracle only): cov(f, f) = var(f) (needs the integral of a pointwise product as a sum over
-   a common refinement) and |corr| <= 1 (Cauchy-Schwarz); corr itself involves a square root: the model returns
+   NOT proved (correspondence + oracle only):
+   |corr| <= 1 (Cauchy-Schwarz); corr itself involves a square root: the model returns
    sign(cov) * cov^2 / (var_f * var_g). *)
 From Coq Require Import List QArith Qcanon.
 Require Import SC.Base.Ord SC.Base.Val SC.Base.Series SC.Base.QcOrd SC.Model.Repr SC.Model.Ops SC.Model.Masking
@@ -56,3 +56,22 @@ Theorem corr_of_opposite_sides_is_rejected :
     corr_signed_square f g lo hi 0 lc = Err EClosedMismatch.
 Proof. exact corr_rejects_opposite_sides. Qed.
 Print Assumptions corr_of_opposite_sides_is_rejected.
+
+(* cov(f, f) over a finite window is var(f) over that window (whenever both are computed: var needs a finite piece on
+   which f is defined). Rests on: the integral of a step table is a Riemann sum over any refinement of its step points
+   (Proofs/RefineFacts.v), so length-weighted sums depend only on the represented function. *)
+Require Import SC.Proofs.RefineFacts SC.Proofs.CovSelfFacts.
+
+Theorem weighted_sums_depend_only_on_the_represented_function :
+  forall (g1 g2 : Qc -> Qc) (l1 l2 : list (Qc * V)),
+    sorted l1 -> sorted l2 -> tail_none None l1 -> tail_none None l2 ->
+    (forall x, vmap g1 (lookup false None l1 x) = vmap g2 (lookup false None l2 x)) ->
+    wsum_pieces g1 l1 = wsum_pieces g2 l2.
+Proof. exact weighted_sums_depend_on_the_function. Qed.
+Print Assumptions weighted_sums_depend_only_on_the_represented_function.
+
+Theorem cov_of_f_with_itself_is_var :
+  forall (f : stairsQ) (a b : Qc) lc (v v' : V), wf f -> minimal f ->
+    cov f f (Some a) (Some b) 0 lc = Ok v -> clipped_var f (Some a) (Some b) = Ok v' -> v = v'.
+Proof. exact cov_self_is_var. Qed.
+Print Assumptions cov_of_f_with_itself_is_var.
